@@ -24,7 +24,7 @@ CLAIMED = {
  "C01": dict(cat="other", ref="DESIGN.md 4/C01",
    text="Reader.__getitem__/read/read_samples proved equal to NumPy indexing of the whole calibrated, geometry-ordered array for every selector shape (int, any slice incl. negative steps and out-of-range bounds, "
         "integer arrays) x every file size; raw_channel_order construction in __init__ against geometry_from_meta's contract; sync unscaled; file untouched. Level other: cbin path and dtype of 0-d results rest on the bounded native stand-in over all shipped metas.",
-   note="A-NP-INDEX, A-REAL (which sample meets which gain; not float32 rounding), A-MTSCOMP. array x array selectors are outside the claim (outer vs point-wise not fixed by the statement). Known finding F-C01-1 (bare list index).",
+   note="A-NP-INDEX, A-REAL (which sample meets which gain; not float32 rounding), A-MTSCOMP. array x array selectors are outside the claim (outer vs point-wise not fixed by the statement). F-C01-1 (bare list index) was repaired.",
    tech="AST->z3 VC generation with abstract selector index functions (deductive) + bounded native stand-in"),
  "C09": dict(cat="other", ref="DESIGN.md 4/C09",
    text="Derived quantities proved for every probe generation/stream with symbolic numeric fields and an abstract IMRO table of symbolic length: s2v*gain*maxint == range, 1 on sync, length == nSavedChans; nidq segments; type/fs/counts/sync indices. "
